@@ -41,16 +41,22 @@ CLAIMS = {
              "entry point; no reachable function stores into a schema column of a user table or drops/adds rows "
              "unless restored; no in-place write through a view of a user table.",
              "call graph + statement CFG with exceptional edges (PAIR), effect analysis, alias/view analysis"),
-    "C09": C("Typestate of cached per-net state: options reset before being filled, lookups/results re-initialised "
-             "before conversion, cached solver state consumed only behind the explicit recycle guard.",
-             "ordering / dominator analysis on ast CFG"),
+    "C09": C("Typestate of the cached per-network state: on every path of every calculation entry point no cached key "
+             "(net._options, _pd2ppc_lookups[...], _is_elements(_final), _ppc*, _isolated_buses ...) is read before it has "
+             "been rewritten in the same call (explicit recycle excepted and guarded); result tables re-initialised before "
+             "the conversion and every written result table is one the mode re-initialises; start voltages taken from "
+             "result tables pass a NaN replacement; no memoisation on the calculation path.",
+             "interprocedural must-definedness (typestate) walk with constant propagation + taint analysis on ast"),
     "C12": C("Writer/reader table agreement: every (element, variable) ConstControl marks recyclable is read by a "
              "builder that the raised flag re-runs; every variable accepted for batch reading is provided by "
              "get_batch_outputs; stored Ybus/Sbus reused only when the corresponding flags are clear.",
              "literal-table extraction + transitive read-set analysis over the call graph"),
-    "C13": C("Controllers are ordered ascending by (level, order); the control loop re-evaluates the net after every "
-             "non-converged step; every write of tap_pos in the tap controllers is guarded by the tap bounds.",
-             "ordering + guard analysis on ast"),
+    "C13": C("Controllers ordered ascending by (level, order), in-service only; every control step is followed by an "
+             "evaluation of the net before the loop test; loop bound and not-converged raise are complementary; tap "
+             "steps are guarded by the tap limits in the same mask, the continuous tap passes np.clip before the write; "
+             "the convergence test of each tap controller accepts exactly the limit that blocks the needed step "
+             "(sibling agreement of control_step and is_converged).",
+             "ordering / guard / sibling cross-check on ast"),
     "C14": C("in_service restored in finally for every N-1 case; N-0 evaluation after the N-1 loop; min/max masks "
              "exclude own outage and NaN; cause attribution is NaN-safe.",
              "CFG pairing + dependence analysis"),
@@ -63,9 +69,11 @@ CLAIMS = {
     "C17": C("Sign parity of cost coefficients: the element sign may multiply odd-degree coefficients only; "
              "res_cost flows from the objective of the same gencost.",
              "monomial-shape (sign parity) analysis"),
-    "C18": C("Base-power degree 0 and unit shape of every short-circuit result; kappa range by interval evaluation; "
-             "2ph/3ph literal factors.",
-             "monomial-shape abstract interpretation + interval evaluation of closed forms"),
+    "C18": C("Unit, decimal scale and base-power degree 0 of every closed-form short-circuit result (ikss, skss, ip, "
+             "rk/xk) and of the short-circuit admittances; literal factors (1/sqrt3, 1/2, sqrt3, sqrt2; 2ph = sqrt3/2 of "
+             "3ph; 1ph z = 2 z1 + z0); kappa range by interval evaluation; per-bus locality of the formulas; agreement "
+             "of the inverse_y branches.",
+             "monomial-shape abstract interpretation + literal-factor and interval evaluation of closed forms + sibling cross-check"),
     "C19": C("Every numpy/scipy attribute chain evaluated on the state-estimation path exists in the installed "
              "library namespace (a missing name makes estimation fail for every input).",
              "ast attribute-chain resolution against installed stub files",
